@@ -410,6 +410,14 @@ def _key_core(e):
             return full(e)
 
 
+def _is_param(e):
+    """the closure's parameter itself, or a copy out of it (`|&i|` / `*i`): one parameter leaf, nothing computed"""
+    if e[0] == "param":
+        return True
+    ls = leaves(e)
+    return len(ls) == 1 and next(iter(ls)).startswith("param:") and not any(x[0] in ("call", "bin", "const", "agg", "phi") for x in walk(e))
+
+
 def d4_lineage(chk, F):
     for fname, tbl, fld in (("cooklang::model::Ingredient::all_quantities", "all_ingredients", ".quantity"),
                             ("cooklang::model::Cookware::all_amounts", "all_cookware", ".quantity")):
@@ -434,7 +442,7 @@ def d4_lineage(chk, F):
                 if "Index" in ck and ck.endswith("::index"):
                     recv = full(arg_expr(g, t, 0))
                     idx = arg_expr(g, t, 1)
-                    if tbl in recv and idx[0] == "param":
+                    if tbl in recv and _is_param(idx):
                         idx_ok = True
             # native slice indexing: (*table)[_i].quantity with _i the closure parameter
             for i, j, s in g.iter_stmts():
@@ -445,7 +453,7 @@ def d4_lineage(chk, F):
                             continue
                         base = resolve_place(g, {"l": p["l"], "p": p["p"][:n]})
                         idx = resolve_place(g, {"l": int(m.group(1)), "p": []})
-                        if tbl in full(base) and idx[0] == "param" and fld in p["p"][n + 1:]:
+                        if tbl in full(base) and _is_param(idx) and fld in p["p"][n + 1:]:
                             idx_ok = True
         chk.expect(own and refs and flat and idx_ok, "C10.D4-lineage", fname.split("::", 2)[-1], f"{f.file}:{f.line}",
                    f"{fname.split('::')[-1]} must chain the component's own quantity with the quantities of its referenced_from indices in the passed slice "
